@@ -139,11 +139,20 @@ def main():
                         shutil.copy(f, dst)
                     elif os.path.isdir(f):
                         shutil.copytree(f, os.path.join(dst, os.path.basename(f)), dirs_exist_ok=True)
+            prev = {}
+            try:
+                prev = json.load(open(os.path.join(ROOT, "seeded", f"{pid}-{which}", "meta.json")))
+            except Exception:
+                pass
+            for keep in ("first_check_result", "strengthening"):
+                if keep in prev:
+                    meta[keep] = prev[keep]
             meta.update({"property": pid, "confirmed_by_lead": {k: res[k] for k in
                          ("repo_head", "demo_cmd", "demo_pkg", "demo_passes_without", "builds", "touched_packages",
                           "existing_tests_pass", "demo_fails_with")},
                          "check_result": {k: res[k] for k in ("check_rc", "detected", "detected_with_input", "check_lines", "replays")},
                          "check_tier": tier})
+            meta.setdefault("first_check_result", meta["check_result"])
             with open(os.path.join(dst, "meta.json"), "w") as f:
                 json.dump(meta, f, indent=1)
                 f.write("\n")
